@@ -142,9 +142,14 @@ func (g *game) ApplyOptions(opts *GameOptions) error {
 			HoleCardsCount:         opts.HoleCardsCount,
 			RequiredHoleCardsCount: opts.RequiredHoleCardsCount,
 			CombinationPowers:      opts.CombinationPowers,
-			Deck:                   opts.Deck,
 			BurnCount:              opts.BurnCount,
 		},
+	}
+
+	// Every game owns its deck: Start() shuffles it in place, so games built
+	// from one options value must not share (and reshuffle) one slice
+	if opts.Deck != nil {
+		g.gs.Meta.Deck = append([]string{}, opts.Deck...)
 	}
 
 	// Loading players
